@@ -13,7 +13,7 @@
    placeholders "~e" "~u" "~t" "~n".                                             *)
 EXTENDS Integers, Sequences, FiniteSets, TLC
 
-N == 99                      \* "n" of the RFC tables
+N == 1000000000           \* "n" of the RFC tables: no upper bound (above any count a text can hold)
 NoArg == "<none>"            \* statement written without an argument (input, output)
 St(kw, arg, subs) == [kw |-> kw, arg |-> arg, subs |-> subs]
 Lf(kw, arg) == St(kw, arg, << >>)
